@@ -224,6 +224,10 @@ func Prelude(seed uint64, cfg *Config) string {
   i32.add
   return
 )
+(func $h_dup (param $a i32) (result i32 i32)
+  local.get $a
+  local.get $a
+)
 (func $h_void (param $a i32)
   local.get $a
   global.set $g_i
@@ -454,7 +458,7 @@ var shapeNames = []string{
 	"num", "num", "num", "num", "num", "num", "num", "num", "num", "num", "num", "num",
 	"tee", "const", "load", "load", "store", "store", "storeload", "global", "select", "if", "ifvoid",
 	"brif", "brifval", "brtable", "brtableval", "loop", "while", "nested", "return", "call", "callmulti",
-	"callind", "callindraw", "memcopy", "memfill", "memgrow", "memsize", "tableops", "unreachable",
+	"callind", "callindraw", "pending", "ifmulti", "memcopy", "memfill", "memgrow", "memsize", "tableops", "unreachable",
 	"chain", "chain", "localzero", "params", "retmulti", "rawaddr", "bulkraw",
 }
 
@@ -772,6 +776,28 @@ func (g *gen) one() *Func {
 		b.I(get(0), get(1), "call $h_pair", "local.set $a", "local.set $b", get(0), get(1))
 		f := b.fn("call", shape, true, false)
 		f.class = func(a []uint64) string { return "multi-value" }
+		return f
+
+	case "pending": // values stay on the operand stack while a loop with branches runs (the compiler's slice append does this)
+		if g.cfg.excluded("return", "multi-value") {
+			return nil
+		}
+		b := newFB(g.name(), "ii", "iii")
+		b.I(get(1), "call $h_dup", "block $X", "loop $L", get(0), "i32.const 7", "i32.and", "i32.eqz", "if $I", "br $X", "else", "end",
+			get(0), "i32.const 1", "i32.sub", "local.set $a", "br $L", "end", "end", get(0))
+		f := b.fn("br", shape, true, false)
+		f.class = func(a []uint64) string { return "pending-values" }
+		return f
+
+	case "ifmulti":
+		if g.cfg.excluded("if", "multi-value") {
+			return nil
+		}
+		b := newFB(g.name(), "iiI", "Ii")
+		b.local("d", 'i')
+		b.I(get(0), "if $I (result i64 i32)", get(2), get(1), "else", get(2), "i64.const 1", "i64.add", get(1), "call $h_dup", "local.set $d", "end")
+		f := b.fn("if", shape, true, false)
+		f.class = func(a []uint64) string { return "multi-value:c=" + Label('i', a[0]) }
 		return f
 
 	case "callind":
